@@ -187,7 +187,7 @@ def coqval(v):
     if isinstance(v, int):
         return f"VZ ({v})" if v < 0 else f"VZ {v}"
     if isinstance(v, str):
-        return 'VS "' + v.replace('"', '""') + '"%string'
+        return 'VS "' + v.replace('"', '""') + '"'
     if isinstance(v, (list, tuple)):
         return "VL [" + "; ".join(coqval(x) for x in v) + "]"
     raise TypeError(f"not canonical: {v!r}")
@@ -391,3 +391,17 @@ class Check:
 def scratch_dir(prefix="xv-"):
     base = os.environ.get("XV_SCRATCH", "/var/tmp")
     return tempfile.mkdtemp(prefix=prefix, dir=base)
+
+
+def generic_replay(run_fn, path):
+    """Replay by re-running the (deterministic, seeded) check that produced the file and
+    reporting whether the same violation key shows up again."""
+    r = json.load(open(path))
+    print("replaying", path)
+    print(json.dumps({k: r.get(k) for k in ("property", "key", "what")}, indent=1)[:1500])
+    if "replay" in r:
+        print("input:", json.dumps(r["replay"], default=str)[:3000])
+    if "key" not in r:
+        print(json.dumps(r, indent=1, default=str)[:3000])
+    rc = run_fn(r.get("tier", "quick"), int(r.get("seed", 0)))
+    return rc
